@@ -5,12 +5,19 @@
 (* found, as value-ids / integers / booleans (floats are compared by the harness: bit-exact   *)
 (* float32 after one rounding, exact or <= 4 ulp float64 for converted metadata).             *)
 (* The expected content comes from SqwContentDefs.                                            *)
+(* History: `gen` = 1 for a file built from fresh parameter objects, 2 for a file built from   *)
+(* the very objects an earlier file was built from (other target, byte order, call order),     *)
+(* 3 for a file of the final pass that repeats earlier configurations in another order;        *)
+(* `rpass` = 1 / 2 for the first / second time the package reader is asked for the block of    *)
+(* the same open file (the second-read event directly follows the first-read event).  The      *)
+(* clauses are the same for all of them - what is written and read may not depend on what      *)
+(* happened before - and a second read must return what the first returned.                    *)
 EXTENDS SqwContentDefs, TLC, Json, IOUtils
 
 Tr == ndJsonDeserialize(IOEnv.TRACE_FILE)
 
-VARIABLES l, nbad
-tvars == <<l, nbad>>
+VARIABLES l, nbad, prevev
+tvars == <<l, nbad, prevev>>
 
 RECURSIVE ProdOf(_)
 ProdOf(s) == IF s = <<>> THEN 1 ELSE Head(s) * ProdOf(Tail(s))
@@ -54,6 +61,7 @@ Holds(c, e) ==
       [] c = "bins_as_declared" -> e.nbins = e.shape
       [] c = "display_axes_index_base" -> e.dax = [i \in 1..Len(e.dax_supplied) |-> e.dax_supplied[i] + e.base]
       [] c = "reader_labels_written_dimension" -> BadDims(e) = {}
+      [] c = "second_read_equals_first_read" -> e.rpass = 2 => [e EXCEPT !.rpass = 1] = prevev
 
 ClausesOf(kind) ==
     CASE kind = "main" -> <<"file_count_is_number_of_runs", "title_as_supplied", "filename_as_supplied",
@@ -72,17 +80,22 @@ ClausesOf(kind) ==
       [] kind = "dnd" -> <<"histogram_shape", "histogram_zero">>
       [] OTHER -> <<>>
 
+History(e) == IF e.gen \in 1..3 /\ e.rpass \in 1..2 /\ (e.rpass = 2 => e.src = "pkg")
+              THEN SelectSeq(<<"second_read_equals_first_read">>, LAMBDA c : ~Holds(c, e))
+              ELSE <<"unknown_history">>
+
 Failing(e) ==
     IF ClausesOf(e.ev) = <<>> THEN <<"unknown_event">>
-    ELSE IF ~e.avail THEN <<"block_not_readable">>
-    ELSE SelectSeq(ClausesOf(e.ev), LAMBDA c : ~Holds(c, e))
+    ELSE IF ~e.avail THEN <<"block_not_readable">> \o History(e)
+    ELSE SelectSeq(ClausesOf(e.ev), LAMBDA c : ~Holds(c, e)) \o History(e)
 
-TInit == l = 1 /\ nbad = 0
+TInit == l = 1 /\ nbad = 0 /\ prevev = [rpass |-> 0]
 TNext == /\ l <= Len(Tr)
          /\ l' = l + 1
          /\ LET e == Tr[l]
                 f == Failing(e)
-            IN /\ nbad' = IF f = <<>> THEN nbad ELSE nbad + 1
+            IN /\ prevev' = e
+               /\ nbad' = IF f = <<>> THEN nbad ELSE nbad + 1
                /\ IF f = <<>> THEN TRUE
                   ELSE PrintT(<<"REJECT", l, e.tid, f,
                                 IF e.avail /\ "dims" \in DOMAIN e THEN BadDims(e) ELSE {}>>)
